@@ -280,7 +280,7 @@ def run_t4(repo: Repo, res: Result, inl: Inliner | None) -> None:
         m = repo.lookup_method(mr_cls, acc)
         res.add(
             "C01.T4",
-            f"{mr_cls.module.relpath}::ModuleRequirement.{acc}::exchange",
+            f"{mr_cls.module.relpath}::{mr_cls.name}.{acc}::exchange",
             ok,
             f"{acc} of ModuleRequirement(a, b, importer_is_subject) is {'a / b exchanged exactly for be-imported-by rules' if exchanged else 'the side as given'}" if ok
             else f"ModuleRequirement(a, b, flag).{acc} yields {'/'.join(sorted(got[True])) or '?'} for import rules and {'/'.join(sorted(got[False])) or '?'} for be-imported-by rules (a=S, b=O): "
